@@ -20,6 +20,8 @@ from harness.tape import HarnessError, Result, Tape, Violation
 
 VERIF = os.path.dirname(os.path.dirname(os.path.abspath(__file__)))
 KNOWN_FILE = os.path.join(VERIF, "known_findings.json")
+# development only: write replays / evidence elsewhere (e.g. while trying a seeded change from a scratch worktree via VERIF_REPO)
+OUT = os.environ.get("VERIF_OUT", VERIF)
 SHRINK_GUARD = {"quick": 45.0, "thorough": 200.0}
 GLOBAL_GUARD = {"quick": 30 * 60.0, "thorough": 5 * 3600.0}
 MAX_KINDS_PER_SHARD = 4
@@ -398,7 +400,7 @@ def main(prop, tier="quick", replay=None, only=None, scale=1.0):
     head = repo_head()
     replay_paths = []
     for kind, (msg, log, sub) in sorted(violations.items()):
-        d = os.path.join(VERIF, "replays", prop)
+        d = os.path.join(OUT, "replays", prop)
         os.makedirs(d, exist_ok=True)
         import hashlib
 
@@ -455,8 +457,8 @@ def main(prop, tier="quick", replay=None, only=None, scale=1.0):
     extra = getattr(mod, "evidence_extra", None)
     if extra:
         ev["coverage"].update(extra(per_sub))
-    os.makedirs(os.path.join(VERIF, "evidence"), exist_ok=True)
-    with open(os.path.join(VERIF, "evidence", f"{prop}.json"), "w") as f:
+    os.makedirs(os.path.join(OUT, "evidence"), exist_ok=True)
+    with open(os.path.join(OUT, "evidence", f"{prop}.json"), "w") as f:
         json.dump(ev, f, indent=1, default=str)
     # report
     print(
@@ -476,7 +478,7 @@ def main(prop, tier="quick", replay=None, only=None, scale=1.0):
     if violations:
         for kind, path, msg in replay_paths:
             print(f"  {kind}: {msg[:600]}")
-            print(f"VIOLATION property={prop} replay={os.path.relpath(path, VERIF)}")
+            print(f"VIOLATION property={prop} replay={os.path.relpath(path, OUT)}")
         return 1
     if os.environ.get("VERIF_STRICT") and missing:
         return 2
